@@ -21,10 +21,10 @@ AllProps == {"C01", "C02", "C03", "C04", "C05", "C06", "C07", "C08", "C09", "C10
              "C13", "C14", "C15", "C16", "C17", "C18", "C19", "C20"}
 
 (* ---- state comparison ---- *)
-UserFields == {"host", "uname", "real", "src", "modes", "away", "chans", "invited"}
+UserFields == {"host", "uname", "real", "src", "modes", "away", "chans", "invited", "killable"}
 ChanFields == {"members", "rs", "flags", "key", "limit", "ban", "exc", "invex", "banwho", "topic",
                "topicby", "preconf", "def"}
-ConnFields == {"nick", "uname", "real", "pass", "src", "authed", "cfgreg", "capneg", "mp", "hasq", "quit"}
+ConnFields == {"nick", "uname", "real", "pass", "src", "authed", "cfgreg", "capneg", "mp", "hasq", "quit", "stalled"}
 Scalars == {"wallops", "invCnt", "operCnt", "maxUsers", "whowas", "connCnt", "up"}
 
 MapTags(top, fields, E, O) ==
